@@ -228,8 +228,33 @@ impl<'a, 'tcx> M<'a, 'tcx> {
         if let ty::FnDef(did, args) = ty.kind() {
             v.push(("fn", self.fn_ref(*did, args)));
         }
+        let mut promoted_desc: Option<String> = None;
         if let Const::Unevaluated(u, _) = c.const_ {
             v.push(("named", J::s(self.cx.path(u.def))));
+            if let Some(p) = u.promoted {
+                // describe the promoted constant by the right-hand sides of its (tiny) MIR body, e.g. `Kind::Variant`
+                let bodies = tcx.promoted_mir(u.def);
+                if let Some(b) = bodies.get(p) {
+                    let mut parts: Vec<String> = Vec::new();
+                    for bb in b.basic_blocks.iter() {
+                        for st in bb.statements.iter() {
+                            if let StatementKind::Assign(asg) = &st.kind {
+                                let (_pl, rv) = &**asg;
+                                match rv {
+                                    Rvalue::Ref(..) | Rvalue::RawPtr(..) => {}
+                                    _ => parts.push(format!("{:?}", rv)),
+                                }
+                            }
+                        }
+                    }
+                    let d: String = parts.join("; ").chars().take(300).collect();
+                    promoted_desc = Some(d);
+                }
+            }
+        }
+        if let Some(d) = promoted_desc {
+            v.push(("promoted", J::s(d.clone())));
+            v.push(("v", J::s(d)));
         }
         // scalar evaluation
         if ty.is_bool() || ty.is_integral() || ty.is_floating_point() || ty.is_char() {
